@@ -1170,6 +1170,7 @@ class quantized_linear(base_quantizer.BaseQuantizer):
         "alpha": self.alpha,
         "keep_negative": self.keep_negative,
         "use_stochastic_rounding": self.use_stochastic_rounding,
+        "scale_axis": self.scale_axis,
         "qnoise_factor": self.qnoise_factor,
     }
     return config
@@ -1519,9 +1520,17 @@ class quantized_bits(base_quantizer.BaseQuantizer):  # pylint: disable=invalid-n
             self.keep_negative,
         "use_stochastic_rounding":
             self.use_stochastic_rounding,
+        "scale_axis":
+            self.scale_axis,
         "qnoise_factor":
             self.qnoise_factor.numpy() if isinstance(
                 self.qnoise_factor, tf.Variable) else self.qnoise_factor,
+        "elements_per_scale":
+            self.elements_per_scale,
+        "min_po2_exponent":
+            self.min_po2_exponent,
+        "max_po2_exponent":
+            self.max_po2_exponent,
         "post_training_scale":
             # Since NumPy arrays are not directly JSON-serializable,
             # we convert them to lists.
@@ -1642,7 +1651,11 @@ class bernoulli(base_quantizer.BaseQuantizer):  # pylint: disable=invalid-name
     return cls(**config)
 
   def get_config(self):
-    config = {"alpha": self.alpha}
+    config = {
+        "alpha": self.alpha,
+        "temperature": self.temperature,
+        "use_real_sigmoid": self.use_real_sigmoid
+    }
     return config
 
 
@@ -2148,7 +2161,11 @@ class binary(base_quantizer.BaseQuantizer):  # pylint: disable=invalid-name
     config = {
         "use_01": self.use_01,
         "alpha": self.alpha,
-        "use_stochastic_rounding": self.use_stochastic_rounding
+        "use_stochastic_rounding": self.use_stochastic_rounding,
+        "scale_axis": self.scale_axis,
+        "elements_per_scale": self.elements_per_scale,
+        "min_po2_exponent": self.min_po2_exponent,
+        "max_po2_exponent": self.max_po2_exponent
     }
     return config
 
@@ -2475,6 +2492,8 @@ class quantized_relu(base_quantizer.BaseQuantizer):  # pylint: disable=invalid-n
             self.use_stochastic_rounding,
         "relu_upper_bound":
             self.relu_upper_bound,
+        "is_quantized_clip":
+            self.is_quantized_clip,
         "qnoise_factor":
             self.qnoise_factor.numpy() if isinstance(
                 self.qnoise_factor, tf.Variable) else self.qnoise_factor
@@ -3277,8 +3296,9 @@ class quantized_hswish(quantized_bits):  # pylint: disable=invalid-name
     base_config = super(quantized_hswish, self).get_config()
     # Drop the quantized_bits options that quantized_hswish.__init__ does not
     # accept, so that from_config(get_config()) works.
-    base_config.pop("keep_negative", None)
-    base_config.pop("post_training_scale", None)
+    for key in ("keep_negative", "post_training_scale", "elements_per_scale",
+                "min_po2_exponent", "max_po2_exponent"):
+      base_config.pop(key, None)
 
     config = {
         "relu_shift": self.relu_shift,
